@@ -109,16 +109,32 @@ def one_case(ctx, pred, ref, cfg, src):
 
 
 def encoding_case(ctx, src):
-    """pair encoding and crop exercised directly with labels up to 2^32 (no look-up table involved)"""
+    """pair encoding and crop exercised directly with labels up to 2^32 (no look-up table involved); half of the
+    cases place the prediction label exactly at floor((2^k - 1) / (max_ref + 1)) (+-1), k in {8, 16, 32}, i.e. where
+    pred*(max_ref+1) just fits into k bits but pred*(max_ref+1)+ref does not"""
     rng = ctx.rng
     n = rng.randint(4, 12)
-    pls = [rng.choice([1, 255, 65535, 65536, 70000, 2 ** 24, 2 ** 31, 2 ** 32 - 1]) for _ in range(3)]
-    rls = [rng.choice([1, 255, 65535, 65537, 70000, 2 ** 24 + 1, 2 ** 32 - 2]) for _ in range(3)]
-    pred = np.array([rng.choice(pls + [0]) for _ in range(n)], dtype=np.uint64).reshape(1, n)
-    ref = np.array([rng.choice(rls + [0]) for _ in range(n)], dtype=np.uint64).reshape(1, n)
+    dt = rng.choice([np.uint32, np.uint64, np.uint64])
+    if rng.random() < 0.5:
+        k = rng.choice([8, 16, 32, 32])
+        top = 2 ** k - 1
+        rmax = rng.choice([1, 2, 9, 15, 255, 256, 4095, 65535, 65536, 2 ** 20]) if k == 32 else rng.choice([1, 2, 9, 15] + ([255] if k == 16 else []))
+        pb = top // (rmax + 1)
+        pls = [max(1, pb + d) for d in (-1, 0, 1)]
+        rls = [rmax, max(1, rmax - 1), rng.randint(1, rmax)]
+        if k < 32:
+            dt = {8: np.uint8, 16: np.uint16}[k] if max(pls + rls) <= top else np.uint32
+        ctx.count("encoding_product_boundary")
+    else:
+        pls = [rng.choice([1, 255, 65535, 65536, 70000, 2 ** 24, 2 ** 31, 2 ** 32 - 1]) for _ in range(3)]
+        rls = [rng.choice([1, 255, 65535, 65537, 70000, 2 ** 24 + 1, 2 ** 32 - 2]) for _ in range(3)]
+    pred = np.array([rng.choice(pls + [0]) for _ in range(n)], dtype=dt).reshape(1, n)
+    ref = np.array([rng.choice(rls + [0]) for _ in range(n)], dtype=dt).reshape(1, n)
+    # make sure the boundary prediction label overlaps the largest reference label
+    pred[0, 0], ref[0, 0] = pls[1] if len(pls) > 1 else pls[0], rls[0]
     if not ref.any():
         return
-    inp = {"shape": [1, n], "pred": gen.arr_json(pred), "ref": gen.arr_json(ref), "src": src, "kind": "encoding"}
+    inp = {"shape": [1, n], "dtype": str(pred.dtype), "pred": gen.arr_json(pred), "ref": gen.arr_json(ref), "src": src, "kind": "encoding"}
     ctx.case(inp, True)
     ctx.count("encoding_direct")
     rl = tuple(int(x) for x in np.unique(ref) if x)
@@ -156,6 +172,33 @@ def corpus(ctx):
     one_case(ctx, pred, ref, E.mk_cfg("MATCHED", ["IOU", "DSC"]), "corpus.far-objects")
 
 
+def wrap_sum_corpus(ctx):
+    """an overlapping pair whose labels sum to 2^bits, far (> crop padding) from every other foreground voxel"""
+    base_r = np.zeros((12, 24), np.uint8)
+    base_p = np.zeros((12, 24), np.uint8)
+    base_r[2:10, 2:10] = 1
+    base_p[2:10, 2:11] = 1
+    base_r[4:6, 20:22] = 2
+    base_p[4:6, 20:22] = 2
+    for it in ("MATCHED", "UNMATCHED"):
+        cfg = E.mk_cfg(it, ["IOU", "DSC", "ASSD", "RVD"], matcher=E.naive("IOU", (1, 2)) if it != "MATCHED" else None)
+        base = E.run_impl(cfg, base_p, base_r)["ungrouped"]
+        for dt, (a, b) in ((np.uint8, (128, 128)), (np.uint8, (56, 200)), (np.uint16, (32768, 32768)), (np.uint16, (65000, 536)), (np.uint8, (100, 100))):
+            if it == "MATCHED" and a != b:
+                continue
+            p2 = np.where(base_p == 1, a, np.where(base_p == 2, 3, 0)).astype(dt)
+            r2 = np.where(base_r == 1, b, np.where(base_r == 2, 3, 0)).astype(dt)
+            inp = {"shape": [12, 24], "pred": gen.arr_json(base_p), "ref": gen.arr_json(base_r), "cfg": cfg, "dtype": str(np.dtype(dt)),
+                   "sigma": {"1": a, "2": 3}, "tau": {"1": b, "2": 3}, "src": "corpus.wrap-sum"}
+            ctx.case(inp, True)
+            ctx.count("wrap_sum_corpus")
+            got = E.run_impl(cfg, p2, r2)
+            d = "raised " + got if isinstance(got, str) else summ_equal(base, got["ungrouped"], cfg["eval_metrics"])
+            if d:
+                ctx.violation(f"result changes under relabelling/dtype ({np.dtype(dt)}, labels {a}/{b}): {d}", inp,
+                              impl={"base": base, "relabelled": got}, key={"kind": "not-invariant"})
+
+
 def run_cases(ctx, n, tag):
     rng = ctx.rng
     for i in range(n):
@@ -166,6 +209,7 @@ def run_cases(ctx, n, tag):
 
 def run(ctx):
     corpus(ctx)
+    wrap_sum_corpus(ctx)
     run_cases(ctx, ctx.scale(250, 2500), "rand")
 
 
@@ -176,8 +220,9 @@ def search(ctx):
 def replay(ctx, rec):
     i = rec["input"]
     if i.get("kind") == "encoding":
-        pred = np.array(i["pred"], dtype=np.uint64).reshape(i["shape"])
-        ref = np.array(i["ref"], dtype=np.uint64).reshape(i["shape"])
+        dt = np.dtype(i.get("dtype", "uint64"))
+        pred = np.array(i["pred"], dtype=dt).reshape(i["shape"])
+        ref = np.array(i["ref"], dtype=dt).reshape(i["shape"])
         rl = tuple(int(x) for x in np.unique(ref) if x)
         with quiet():
             got = sorted(F._calc_overlapping_labels(pred, ref, rl))
